@@ -464,7 +464,11 @@ func (e *Engine) step(st *State, in ssa.Instruction) bool {
 		fr.locals[x] = MapVal{Obj: id}
 		fr.pc++
 	case *ssa.MakeChan:
-		id := st.newObj(nil, x.Type())
+		sz, ok := e.val(st, x.Size).(*Term)
+		if !ok || !sz.K {
+			unsup("MakeChan with symbolic size")
+		}
+		id := st.newObj(ChanState{Cap: int(sz.I.Int64())}, x.Type())
 		fr.locals[x] = ChanVal{Obj: id}
 		fr.pc++
 	case *ssa.Lookup:
@@ -500,10 +504,15 @@ func (e *Engine) step(st *State, in ssa.Instruction) bool {
 		case "skip":
 			fr.pc++
 		default:
-			unsup("go statement (no go_policy)")
+			// cooperative goroutine
+			d := e.mkDeferred(st, x.Common())
+			fr.pc++
+			return e.spawn(st, d)
 		}
-	case *ssa.Send, *ssa.Select:
-		return e.chanInstr(st, in)
+	case *ssa.Send:
+		return e.chanSend(st, x)
+	case *ssa.Select:
+		return e.chanSelect(st, x)
 	case *ssa.SliceToArrayPointer:
 		s := e.val(st, x.X).(SliceVal)
 		if s.Obj == 0 {
@@ -594,7 +603,13 @@ func (e *Engine) doReturn(st *State, rv Value) {
 		fr.onRet(st, rv)
 		return
 	}
-	// top level
+	// top level of a goroutine
+	if st.gs != nil && st.cur != 0 {
+		st.gs[st.cur].done = true
+		st.fr = nil
+		e.schedule(st)
+		return
+	}
 	st.fr = nil
 	e.endPath(st, "return", "")
 }
@@ -922,7 +937,7 @@ func (e *Engine) unop(st *State, x *ssa.UnOp) bool {
 			fr.locals[x] = Sub(KInt(ii.hi), t)
 		}
 	case token.ARROW:
-		return e.chanInstr(st, x)
+		return e.chanRecv(st, x)
 	default:
 		unsup("unop %s", x.Op)
 	}
